@@ -294,6 +294,17 @@ pub fn run(rep: &mut Report) {
         let j = i / 36;
         j_commute(UNIFORM[(p / 6) as usize], UNIFORM[(p % 6) as usize], sub[(j / m) as usize], ds[(j % m) as usize], out)
     });
+    // interior scan (round 8): evenly spread, unremarkable counts (+-100 centuries, per binade, whole range) x all 36 pairs
+    {
+        let nsc: u64 = if deep { 20_000_000 } else { 1_500_000 };
+        rep.bound("interior_scan_points", nsc);
+        sweep(rep, "c05.scan_conv", 36 * (nsc / 8), |i, out| j_conv(UNIFORM[((i / 6) % 6) as usize], UNIFORM[(i % 6) as usize], scan_dur(i / 36, 0), out));
+        sweep(rep, "c05.scan_commute", 36 * (nsc / 16), |i, out| {
+            let k = i / 36;
+            j_commute(UNIFORM[((i / 6) % 6) as usize], UNIFORM[(i % 6) as usize], lattice::scan_point(k, 1, -100 * NPC, 100 * NPC), if k % 2 == 0 { lattice::scan_point(k, 2, -3 * NPC, 3 * NPC) } else { lattice::scan_magnitude(k, 3, 0, 68) }, out)
+        });
+        sweep(rep, "c05.scan_float", 6 * (nsc / 8), |i, out| j_float(UNIFORM[(i % 6) as usize], lattice::scan_point(i / 6, 4, -100 * NPC, 100 * NPC), out));
+    }
     // the float constructors of the six scales (seconds; days where there is one)
     let cf = ctor_floats();
     let ncf = cf.len() as u64;
